@@ -36,6 +36,25 @@ static void der_len(struct rbuf *b, size_t len) {
     rb_put(b, (uint8_t)(0x80 | n));
     for(int i = n - 1; i >= 0; i--) rb_put(b, (uint8_t)(len >> (8 * i)));
 }
+/* BER alternatives (C03): when ref_lf is set, each TLV takes its length form from the next entry:
+ * 0 minimal definite, 1 long form 0x81 nn, 2 long form with a leading zero octet 0x82 00 nn,
+ * 3 indefinite (constructed encodings only; primitive ones fall back to form 1). */
+struct lenforms { uint8_t f[8]; int next; };
+static struct lenforms *ref_lf = 0;
+static int ref_next_form(void) { if(!ref_lf) return 0; int i = ref_lf->next++; return i < 8 ? ref_lf->f[i] : 0; }
+static void ber_len_form(struct rbuf *b, size_t len, int form) {
+    if(form == 1 && len < 256) { rb_put(b, 0x81); rb_put(b, (uint8_t)len); }
+    else if(form == 2 && len < 256) { rb_put(b, 0x82); rb_put(b, 0); rb_put(b, (uint8_t)len); }
+    else der_len(b, len);
+}
+static void x_len(struct rbuf *b, size_t len) { int f = ref_next_form(); ber_len_form(b, len, f == 3 ? 1 : f); }
+/* constructed TLV around an already encoded body */
+static void x_constructed(struct rbuf *o, unsigned cls_pc, uint32_t num, const uint8_t *body, size_t blen) {
+    int f = ref_next_form();
+    der_tag(o, cls_pc | CONSTRUCTED, num);
+    if(f == 3) { rb_put(o, 0x80); rb_puts(o, body, blen); rb_put(o, 0); rb_put(o, 0); }
+    else { ber_len_form(o, blen, f); rb_puts(o, body, blen); }
+}
 /* number of content octets of the minimal two's complement form (X.690 8.3) */
 static int int_octets(int64_t v) {
     int n = 1;
@@ -55,19 +74,19 @@ static void put_uint_octets(struct rbuf *b, uint64_t v, int n) {
 }
 static void der_int_tagged(struct rbuf *b, unsigned cls_pc, uint32_t num, int64_t v) {
     int n = int_octets(v);
-    der_tag(b, cls_pc, num); der_len(b, (size_t)n); put_int_octets(b, v, n);
+    der_tag(b, cls_pc, num); x_len(b, (size_t)n); put_int_octets(b, v, n);
 }
 static void der_bool_tagged(struct rbuf *b, unsigned cls_pc, uint32_t num, int v) {
-    der_tag(b, cls_pc, num); der_len(b, 1); rb_put(b, v ? 0xff : 0x00);
+    der_tag(b, cls_pc, num); x_len(b, 1); rb_put(b, v ? 0xff : 0x00);
 }
 static void der_octets_tagged(struct rbuf *b, unsigned cls_pc, uint32_t num, const uint8_t *s, size_t n) {
-    der_tag(b, cls_pc, num); der_len(b, n); rb_puts(b, s, n);
+    der_tag(b, cls_pc, num); x_len(b, n); rb_puts(b, s, n);
 }
 /* BIT STRING of nbits bits taken MSB-first from s; unused bits cleared (X.690 11.2.1) */
 static void der_bits_tagged(struct rbuf *b, unsigned cls_pc, uint32_t num, const uint8_t *s, size_t nbits) {
     size_t nb = (nbits + 7) / 8;
     unsigned unused = (unsigned)(nb * 8 - nbits);
-    der_tag(b, cls_pc, num); der_len(b, nb + 1); rb_put(b, (uint8_t)unused);
+    der_tag(b, cls_pc, num); x_len(b, nb + 1); rb_put(b, (uint8_t)unused);
     for(size_t i = 0; i < nb; i++) {
         uint8_t c = s[i];
         if(i == nb - 1 && unused) c &= (uint8_t)(0xff << unused);
